@@ -9,6 +9,8 @@ programs that are logically well-synchronised (decided from the NRT timeline:
 no two events on different clocks that touch the same state lie within the
 margin); for the others real time has no single answer."""
 
+import os
+
 from sim import subrun as S
 from sim import osc
 from . import common as C
@@ -181,7 +183,9 @@ def families(prog):
     return fam
 
 
-def well_synchronised(prog, trace, slack=1e-9):
+def well_synchronised(prog, trace, slack=1e-9, second_at=None):
+    """`second_at`: index at which the second world's trace starts when
+    `trace` is the concatenation of two worlds' traces."""
     fam = families(prog)
     # a task made overdue by a map change (its logical time lies before the
     # instant of the change) runs 'immediately': in real time it races with
@@ -200,6 +204,9 @@ def well_synchronised(prog, trace, slack=1e-9):
     evs = []
     res_idx = {}
     for n, e in enumerate(trace):
+        if n == second_at:
+            # the same resumption gets the same name in both worlds
+            res_idx = {}
         if 'secs' not in e or e['r'] == 'main':
             continue
         cname = prog['routines'][e['r']]['clock']
@@ -213,13 +220,36 @@ def well_synchronised(prog, trace, slack=1e-9):
             if e['ev'] in ('wait', 'cwait', 'fget'):
                 res_idx[e['r']] = k + 1
         evs.append((e['secs'], cname, fp, e, n))
-    # operations that schedule a routine: (trace index, actor, target)
+    # operations that schedule a routine: (trace index, actor, target, secs)
     causes = []
     for n, e in enumerate(trace):
         if e['ev'] in ('spawn', 'spawnd'):
-            causes.append((n, e['r'], e['child']))
+            causes.append((n, e['r'], e['child'], e.get('secs')))
         elif e['ev'] == 'resume':
-            causes.append((n, e['r'], e['vals'][0]))
+            causes.append((n, e['r'], e['vals'][0], e.get('secs')))
+
+    def world_of(n):
+        return 0 if second_at is None or n < second_at else 1
+
+    def caused(ea, na, eb, nb):
+        """Is eb (routine q) an effect of something routine p did at or after
+        its event ea?  Across two worlds the scheduling operation must have
+        happened in both: after ea in ea's world, before eb in eb's."""
+        if world_of(na) == world_of(nb):
+            return na < nb and any(
+                na <= k < nb and actor == ea['r'] and tgt == eb['r']
+                for k, actor, tgt, _ in causes)
+        for ka, actor, tgt, sa in causes:
+            if actor != ea['r'] or tgt != eb['r'] or ka < na \
+                    or world_of(ka) != world_of(na) or sa is None:
+                continue
+            for kb, actor2, tgt2, sb in causes:
+                if actor2 == actor and tgt2 == tgt and kb < nb \
+                        and world_of(kb) == world_of(nb) \
+                        and sb is not None and abs(sa - sb) < 1e-9:
+                    return True
+        return False
+
     evs.sort(key=lambda x: x[0])
     for i, (s1, c1, f1, e1, n1) in enumerate(evs):
         for s2, c2, f2, e2, n2 in evs[i + 1:]:
@@ -229,9 +259,7 @@ def well_synchronised(prog, trace, slack=1e-9):
                 continue
             # what an actor does before it schedules a routine happens before
             # that routine's wake-up: cause and effect do not race
-            a, b, na, nb = (e1, e2, n1, n2) if n1 < n2 else (e2, e1, n2, n1)
-            if any(na <= k < nb and actor == a['r'] and tgt == b['r']
-                   for k, actor, tgt in causes):
+            if caused(e1, n1, e2, n2) or caused(e2, n2, e1, n1):
                 continue
             hit = conflicts(f1, f2)
             if hit:
@@ -436,9 +464,12 @@ def run_case(case, tape, ctx):
         # different one of two routines that race, e.g. each pausing the
         # other at the same instant)
         ok, why = well_synchronised(prog, nrt['trace'] + rt['trace'],
-                                    slack=float('inf'))
+                                    slack=float('inf'),
+                                    second_at=len(nrt['trace']))
     if ok:
         stats['well-synchronised'] = 1
+        if case.get('scenario'):
+            stats['scenario-' + case['scenario'] + '-judged'] = 1
         if rt['errors'] or nrt['errors']:
             viol.add('C10-1', 'error-logged',
                      f'rt: {rt["errors"][:1]} nrt: {nrt["errors"][:1]}')
@@ -453,6 +484,8 @@ def run_case(case, tape, ctx):
         stats['bundles-compared'] = stats.get('bundles-compared', 0) + len(bn)
     else:
         stats['racy-program-skipped'] = 1
+        if os.environ.get('VERIF_DBG'):
+            stats['why ' + repr(why)] = 1
         stats[f'racy-{why[0][0] if isinstance(why[0], tuple) else why[0]}'] = 1
     feats = []
     kinds = {e['ev'] for e in nrt['trace']}
